@@ -580,6 +580,64 @@ impl Oracle for LedgerOracle {
                     }
                 }
             }
+            // (v'') the same for count-limited and by-type event READs: a complete single-fragment answer carries, header by
+            // header, the oldest events that match (up to the count) and have not been taken by an earlier header
+            if !unsol && is_read_from_master && Some(frag.ctrl.seq) == req_seq && frag.ctrl.fir && frag.ctrl.fin && discarded_now.is_empty() {
+                if let Some(sent) = &step.sent {
+                    if let Ok((headers, _)) = refapp::decode_objects(&sent.bytes[2..], false) {
+                        let mut modelled = true;
+                        let mut taken: Vec<u64> = Vec::new();
+                        for h in &headers {
+                            let limit: Option<usize> = match h.qualifier {
+                                0x06 => None,
+                                0x07 | 0x08 => Some(h.count),
+                                _ => {
+                                    // ranges etc.: only static objects can be addressed that way
+                                    if h.group == 60 || refapp::ALL_TYPES.iter().any(|t| crate::verif::nodes::outstation::event_group(*t) == h.group) {
+                                        modelled = false;
+                                    }
+                                    continue;
+                                }
+                            };
+                            let by_class = if h.group == 60 && (2..=4).contains(&h.var) { Some(h.var - 1) } else { None };
+                            let by_type = refapp::ALL_TYPES.iter().copied().find(|t| crate::verif::nodes::outstation::event_group(*t) == h.group && h.group != 60);
+                            if by_class.is_none() && by_type.is_none() {
+                                continue;
+                            }
+                            let mut cands: Vec<u64> = self
+                                .ledger
+                                .events
+                                .values()
+                                .filter(|e| e.state == EvState::Live && live_at_start.contains(&e.id) && !taken.contains(&e.id))
+                                .filter(|e| by_class.map(|c| e.class == c).unwrap_or(true) && by_type.map(|t| e.ptype == t).unwrap_or(true))
+                                .map(|e| e.id)
+                                .collect();
+                            cands.sort();
+                            if let Some(l) = limit {
+                                cands.truncate(l);
+                            }
+                            taken.extend(cands);
+                        }
+                        if modelled {
+                            let missing: Vec<u64> = taken.iter().copied().filter(|id| !ids.contains(id)).collect();
+                            if !missing.is_empty() {
+                                self.bump("probe.limited_read_checked");
+                                return Some(Violation::new(
+                                    "C03/v event-read-omits-live-events",
+                                    if headers.iter().any(|h| matches!(h.qualifier, 0x07 | 0x08)) { "count-limited" } else { "unlimited" },
+                                    format!(
+                                        "step {}: complete response to the event READ reports {:?}; header by header the oldest matching live events are {:?}; missing {:?}",
+                                        step.op_index, ids, taken, missing
+                                    ),
+                                ));
+                            }
+                            if headers.iter().any(|h| matches!(h.qualifier, 0x07 | 0x08)) {
+                                self.bump("probe.limited_read_checked");
+                            }
+                        }
+                    }
+                }
+            }
             events_reported_in_step += ids.len();
             if !unsol {
                 if let Some(m) = ids.last() {
